@@ -161,8 +161,39 @@ def cmdToJson (db : Db) (c : Cmd) : Json :=
 def stFields (db : Db) (s : St) : List (String × Json) :=
   [("env", envToJson db s.env), ("aliases", mkObjS s.aliases ofStr), ("unaliased", ofStrs s.unaliased)]
 
+/-- op "session": ONE `Eups` object serving several top-level `Eups.setup` calls (API use): keep / max_depth / VRO / path
+are the object's, `alreadySetupProducts`, the product cache and the alias tables live on from call to call; the session
+ends at the first call that does not succeed.  "steps": [{"op":"setup"|"unsetup","name","ver"}…] -/
+def session (db : Db) (fuel : Nat) (req : Request) (j : Json) (env : Setup.Env) : Except String Json := do
+  let steps ← (← jarr j "steps").mapM fun t => do
+    let fwd ← match (← (← t.getObjVal? "op").getStr?) with
+      | "setup" => pure true
+      | "unsetup" => pure false
+      | o => throw s!"unknown op {o}"
+    let ver ← match optField t "ver" with
+      | some v => pure (some (← verReqOf v))
+      | none => pure none
+    pure (fwd, ← jstr t "name", ver)
+  let rec go (l : List (Bool × Setup.Name × Option VerReq)) (s : St) (acc : List Json) : List Json :=
+    match l with
+    | [] => acc.reverse
+    | (fwd, name, ver) :: rest =>
+      match setup (req.cfg db) fuel fwd 0 false req.vro name (if fwd then ver else none) none s with
+      | .ok s' => go rest s' (Json.mkObj (("out", "ok") :: stFields db s') :: acc)
+      | .notFound s' => (Json.mkObj (("out", "notfound") :: stFields db s') :: acc).reverse
+      | .raised s' => (Json.mkObj (("out", "raised") :: stFields db s') :: acc).reverse
+      | .fuel => (Json.mkObj [("out", "fuel")] :: acc).reverse
+  pure <| Json.mkObj [("vro", Json.arr (req.vro.map vroToJson).toArray), ("steps", Json.arr (go steps (St.init env) []).toArray)]
+
 def handle : Handler := fun j => do
   let op ← (← j.getObjVal? "op").getStr?
+  if op == "session" then
+    let db0 ← dbOf (← j.getObjVal? "db")
+    let types ← match optField j "types" with
+      | some _ => jstrs j "types"
+      | none => pure []
+    let db := db0.withTypes types
+    return ← session db (← jnat j "fuel") (← reqOf (← j.getObjVal? "req")) j (← envOf db (← j.getObjVal? "env"))
   let fwd ← match op with
     | "setup" => pure true
     | "unsetup" => pure false
